@@ -141,8 +141,8 @@ impl BrakingPoints {
                         });
                     }
 
-                    // Exit if the braking point passed the beginning of the path
-                    if self.points.last().unwrap().offset < path_tpc.offset_begin() {
+                    // Exit if the braking point reached or passed the beginning of the path
+                    if self.points.last().unwrap().offset <= path_tpc.offset_begin() {
                         break;
                     }
                 }
